@@ -12,7 +12,7 @@ use truc::record::definition::builder::native::{variant, DatumDefinitionOverride
 use truc::record::definition::{DatumId, NativeDatumDetails, RecordDefinition, RecordVariantId};
 use truc::record::definition::convert::convert_record_definition;
 use truc::record::definition::DatumDefinition;
-use truc::record::type_resolver::{DynamicTypeInfo, HostTypeResolver, TypeInfo, TypeResolver};
+use truc::record::type_resolver::{DynamicTypeInfo, HostTypeResolver, StaticTypeResolver, TypeInfo, TypeResolver};
 
 type B = NativeRecordDefinitionBuilder<HostTypeResolver>;
 
@@ -354,6 +354,82 @@ fn replay_resolver(sc: &Value) -> usize {
     fails
 }
 
+/// C18 (type tables) replay: concrete types whose size differs from their alignment stand for the tags.
+fn replay_table(sc: &Value) -> usize {
+    let mut fails = 0;
+    let mut fail = |s: String| {
+        println!("FAIL: {}", s);
+        fails += 1;
+    };
+    let mut table = StaticTypeResolver::new();
+    let regs = sc["regs"].as_array().cloned().unwrap_or_default();
+    for r in &regs {
+        let un = r["uninit"].as_bool().unwrap_or(false);
+        let ok = catch_unwind(AssertUnwindSafe(|| match (r["tag"].as_str().unwrap_or("A"), un) {
+            ("A", false) => table.add_type::<[u16; 3]>(),
+            ("A", true) => table.add_type_allow_uninit::<[u16; 3]>(),
+            ("B", false) => table.add_type::<[u8; 5]>(),
+            ("B", true) => table.add_type_allow_uninit::<[u8; 5]>(),
+            (_, false) => table.add_type::<[u32; 3]>(),
+            (_, true) => table.add_type_allow_uninit::<[u32; 3]>(),
+        }));
+        if ok.is_err() {
+            fail("C18: registering a new type in a type table panics".to_string());
+        }
+    }
+    macro_rules! lookups {
+        ($t:ty, $un:expr) => {{
+            let host = HostTypeResolver.type_info::<$t>();
+            match catch_unwind(AssertUnwindSafe(|| table.type_info::<$t>())) {
+                Ok(ti) => {
+                    println!("  table {:?} host {:?}", ti, host);
+                    if ti != host {
+                        fail(format!("C18: a type table disagrees with the host resolver on the platform where it was produced ({}: {}/{} vs {}/{})", host.name, ti.size, ti.align, host.size, host.align));
+                    }
+                    match catch_unwind(AssertUnwindSafe(|| table.dynamic_type_info(&host.name))) {
+                        Ok(dy) => {
+                            if dy.info != ti {
+                                fail("C18: dynamic and typed lookups of a type table disagree".to_string());
+                            }
+                            if dy.allow_uninit != $un {
+                                fail("C18: a type table answers a wrong may-be-uninitialised flag".to_string());
+                            }
+                        }
+                        Err(_) => fail("C18: a type table does not answer a dynamic lookup for a registered type".to_string()),
+                    }
+                }
+                Err(_) => fail("C18: a type table does not answer for a type that was registered".to_string()),
+            }
+        }};
+    }
+    for r in &regs {
+        let un = r["uninit"].as_bool().unwrap_or(false);
+        match r["tag"].as_str().unwrap_or("A") {
+            "A" => lookups!([u16; 3], un),
+            "B" => lookups!([u8; 5], un),
+            _ => lookups!([u32; 3], un),
+        }
+    }
+    if catch_unwind(AssertUnwindSafe(|| table.type_info::<[u64; 7]>())).is_ok() {
+        fail("C18: a type table answers a typed lookup for a type that was never registered".to_string());
+    }
+    if catch_unwind(AssertUnwindSafe(|| table.dynamic_type_info("[u64; 7]"))).is_ok() {
+        fail("C18: a type table answers a dynamic lookup for a type that was never registered".to_string());
+    }
+    if sc["dup"].as_bool().unwrap_or(false) {
+        let first_un = regs.first().map(|r| r["tag"].as_str().unwrap_or("A").to_string()).unwrap_or_default();
+        let twice = catch_unwind(AssertUnwindSafe(|| match first_un.as_str() {
+            "A" => table.add_type::<[u16; 3]>(),
+            "B" => table.add_type::<[u8; 5]>(),
+            _ => table.add_type::<[u32; 3]>(),
+        }));
+        if twice.is_ok() {
+            fail("C18: registering a type twice in a type table is accepted".to_string());
+        }
+    }
+    fails
+}
+
 /// C20 replay.
 fn replay_conv(sc: &Value) -> usize {
     let mut fails = 0;
@@ -495,8 +571,8 @@ fn main() {
     let mut obs = Obs { fails: Vec::new(), first_offsets: BTreeMap::new() };
     let mut b = NativeRecordDefinitionBuilder::new(HostTypeResolver);
     let kind = sc.get("kind").and_then(|k| k.as_str()).unwrap_or("hist");
-    if kind == "resolver" || kind == "conv" {
-        let r = catch_unwind(AssertUnwindSafe(|| if kind == "conv" { replay_conv(&sc) } else { replay_resolver(&sc) }));
+    if kind == "resolver" || kind == "conv" || kind == "table" {
+        let r = catch_unwind(AssertUnwindSafe(|| if kind == "conv" { replay_conv(&sc) } else if kind == "table" { replay_table(&sc) } else { replay_resolver(&sc) }));
         let n = match r {
             Ok(n) => n,
             Err(_) => {
